@@ -184,23 +184,33 @@ func runC05ToStr(c *Ctx) {
 			}
 			// follow conversions to the formatting call
 			var call *ssa.Call
+			lossy := ""
 			var trace func(v ssa.Value, depth int)
 			trace = func(v ssa.Value, depth int) {
-				if depth > 3 || call != nil {
+				if depth > 6 || call != nil {
 					return
 				}
 				for _, r := range refs(v) {
 					switch x := r.(type) {
 					case *ssa.Convert:
+						if why := lossyIntConv(x.X.Type(), x.Type()); why != "" && lossy == "" {
+							lossy = why
+						}
 						trace(x, depth+1)
 					case *ssa.ChangeType:
 						trace(x, depth+1)
+					case *ssa.Phi:
+						trace(x, depth+1) // the widened value is merged with the other cases' before one shared call
 					case *ssa.Call:
 						call = x
 					}
 				}
 			}
 			trace(val, 0)
+			if call != nil && lossy != "" {
+				c.Bad("C05-TOSTR", "valid.ToStr", "type:"+bt.Name(), ta.Pos(), "the value is converted before it is rendered: "+lossy+" — the decimal text is that of a different number (membership, uniqueness and map-key paths then disagree with the value)")
+				continue
+			}
 			if call == nil && bt.Name() == "bool" {
 				// hand-written FormatBool: the value decides between the constants "true" and "false"
 				okBool := false
@@ -332,4 +342,56 @@ func runToStrCases(c *Ctx, rule string) {
 		bad = append(bad, "no fmt-based default rendering (%v) found")
 	}
 	c.Check(len(bad) == 0 && n > 0, rule, fnName(fn), "cases", fn.Pos(), fmt.Sprintf("%d basic-type cases, fmt %%v default", n), uniqJoin(bad, 3))
+}
+
+// lossyIntConv: an integer conversion that cannot hold every value of its source on every platform
+// the library builds for (int and uint are 32 bits wide on 386/arm). "" when value preserving.
+func lossyIntConv(from, to types.Type) string {
+	fb, ok1 := from.Underlying().(*types.Basic)
+	tb, ok2 := to.Underlying().(*types.Basic)
+	if !ok1 || !ok2 || fb.Info()&types.IsInteger == 0 || tb.Info()&types.IsInteger == 0 {
+		return ""
+	}
+	bits := func(b *types.Basic) (int, bool) { // guaranteed width, signed
+		switch b.Kind() {
+		case types.Int8:
+			return 8, true
+		case types.Int16:
+			return 16, true
+		case types.Int32:
+			return 32, true
+		case types.Int64:
+			return 64, true
+		case types.Int:
+			return 32, true
+		case types.Uint8:
+			return 8, false
+		case types.Uint16:
+			return 16, false
+		case types.Uint32:
+			return 32, false
+		case types.Uint64, types.Uintptr:
+			return 64, false
+		case types.Uint:
+			return 32, false
+		}
+		return 64, true
+	}
+	maxBits := func(b *types.Basic) int { // widest the type can be
+		if b.Kind() == types.Int || b.Kind() == types.Uint || b.Kind() == types.Uintptr {
+			return 64
+		}
+		w, _ := bits(b)
+		return w
+	}
+	tw, tSigned := bits(tb)
+	_, fSigned := bits(fb)
+	fw := maxBits(fb)
+	switch {
+	case fSigned == tSigned && tw >= fw:
+		return ""
+	case !fSigned && tSigned && tw > fw:
+		return ""
+	}
+	return fmt.Sprintf("%s to %s does not keep every value (int/uint are 32 bits wide on 32-bit platforms)", fb.Name(), tb.Name())
 }
